@@ -3247,6 +3247,20 @@ class StateEngine(object):
             retry_count = branch_info.get("RetryCount")  # None if not present
             retry_timeout = branch_info.get("RetryTimeout")  # None if not present
 
+            def restore_retry_info():
+                """
+                The retry information in the context at this point is that of
+                the branch state that delivered its result (a Task that was
+                retried, say). Put back that of the Map or Parallel state
+                itself, which was set aside when its branches were launched.
+                """
+                for key, value in (("RetryCount", retry_count),
+                                   ("RetryTimeout", retry_timeout)):
+                    if value:
+                        context_state[key] = value
+                    else:
+                        context_state.pop(key, None)
+
             """
             Retrieve the full parent Map/Parallel state dict from the ASL given
             the parent state name.
@@ -3373,10 +3387,7 @@ class StateEngine(object):
                                      str(min(end + max_concurrency, len(result))),
                         }
 
-                        if retry_count:
-                            context_state["RetryCount"] = retry_count
-                        if retry_timeout:
-                            context_state["RetryTimeout"] = retry_timeout
+                        restore_retry_info()
 
                         self.event_dispatcher.publish(event)
 
@@ -3427,10 +3438,7 @@ class StateEngine(object):
                 """
                 event["data"] = data
 
-                if retry_count:
-                    context_state["RetryCount"] = retry_count
-                if retry_timeout:
-                    context_state["RetryTimeout"] = retry_timeout
+                restore_retry_info()
 
                 """
                 Implement some Execution History updates that occur when Map
@@ -3529,10 +3537,7 @@ class StateEngine(object):
                 if error_type:
                     # Retry and Catch work on the raw input.
                     event["data"] = data
-                    if retry_count:
-                        context_state["RetryCount"] = retry_count
-                    if retry_timeout:
-                        context_state["RetryTimeout"] = retry_timeout
+                    restore_retry_info()
                     handle_error(state, error_type, error_message)
 
             """
